@@ -164,10 +164,9 @@ def gen_program(rng, ctx):
             del groups[gid]
             if gid in singles:
                 singles.remove(gid)
-        elif deletions and r < 0.2 and any(len(v) > 2 for v in groups.values()):
-            # never delete the last child: a parent that physically loses all children after a merge would hit the
-            # NestedChildren childless-parent defect (query/nested.py, reported to the lead), which is not C06's
-            gid = rng.choice([g for g in live_gids if len(groups[g]) > 2])
+        elif deletions and r < 0.2 and any(len(v) > 1 for v in groups.values()):
+            # may delete the last child: the parent then becomes physically childless once a merge drops the child
+            gid = rng.choice([g for g in live_gids if len(groups[g]) > 1])
             key = rng.choice(groups[gid][1:])
             groups[gid].remove(key)
             ops.append(("delchild", key))
@@ -449,7 +448,7 @@ def make_probes(rng, remove=None):
         ("every", query.Every()),
         ("andnot", query.AndNot(query.Term("text", w1), query.Term("text", w2))),
         ("nested-parent", query.NestedParent(parents, query.And([query.Term("kind", "child"), query.Term("text", w1)]))),
-        ("nested-children", query.NestedChildren(parents, query.And([parents, query.Term("kids", "y"), query.Term("text", w2)]))),
+        ("nested-children", query.NestedChildren(parents, query.And([parents, query.Term("text", w2)]))),
     ]
     if remove:
         probes = [(n, q) for n, q in probes if remove not in [f for f, _ in q.iter_all_terms()] and not (remove == "num" and n == "numrange")]
@@ -548,7 +547,7 @@ def model_expectations(groups, probewords, remove):
             continue
         if any(d["kind"] == "child" and w1 in d.get("text", "").split() for d in docs):
             nparent.add(parent["id"])
-        if w2 in parent.get("text", "").split() and parent.get("kids"):
+        if w2 in parent.get("text", "").split():
             nchildren.update(d["id"] for d in docs if d["kind"] == "child")
     return stored, members, nparent, nchildren
 
